@@ -7,13 +7,17 @@ From GoCarProofs Require Import BytesFacts VarintFacts CidFacts HeaderFacts Scan
 (* ---- the reader sits at [pre | x | trailer] ------------------------------------------- *)
 Definition at_bytes (st : brp) (pre x trailer : bytes) : Prop :=
   p_all st = pre ++ x ++ trailer /\ p_pos st = blen pre /\
-  match p_lim st with None => trailer = [] | Some n => n = blen x end.
+  match p_lim st with
+  | None => trailer = []
+  | Some n => n = blen x \/ (blen x <= n /\ trailer = [])   (* the LimitedReader may promise more
+                                                               than a truncated source holds *)
+  end.
 
 Lemma vis_at st pre x tr : at_bytes st pre x tr -> vis st = x.
 Proof.
   intros (Hall & Hpos & Hlim). unfold vis. rewrite Hall, Hpos, drop_app.
   destruct (p_lim st) as [n|].
-  - subst n. apply take_app.
+  - destruct Hlim as [->|(Hle & ->)]; [apply take_app|]. rewrite app_nil_r. apply take_ge. exact Hle.
   - subst tr. apply app_nil_r.
 Qed.
 
@@ -24,7 +28,8 @@ Proof.
   split; [|split].
   - rewrite Hall. rewrite <- !app_assoc. reflexivity.
   - rewrite Hpos, blen_app. reflexivity.
-  - destruct (p_lim st) as [n|]; [|exact Hlim]. subst n. rewrite blen_app. lia.
+  - destruct (p_lim st) as [n|]; [|exact Hlim].
+    destruct Hlim as [->|(Hle & ->)]; [left|right; split; [|reflexivity]]; rewrite blen_app in *; lia.
 Qed.
 
 Lemma at_set_off st off pre x tr : at_bytes st pre x tr -> at_bytes (set_off off st) pre x tr.
